@@ -30,9 +30,12 @@ MANIFEST = dict(
     note="The url crate's normal form of --announce/--update-url is modelled concretely for tracker-style URLs (Model/UrlNorm.v: "
          "ASCII, scheme://authority, special schemes except file: and non-special ones) and proved to fix every URL written in "
          "normal form, to return only such URLs and to be idempotent; it is compared with the `url_norm` hook on every run. "
-         "Assumed (Section variables, exercised by the run): the url crate outside that fragment (IDNA / non-ASCII, file:, URLs "
-         "without `//`, relative references) and on node "
-         "hosts, Url::parse acceptance of tier members, the build-time git suffix of `created by`. Hashing (C01), the walker's "
+         "Since X14 the three url-crate variables of the model have concrete instances (Model/UrlConcrete.v: c_norm, c_url_ok, "
+         "c_host_canon over the X9 / X10 models) and the headline statements are proved at them (c05_concrete_*: create stores exactly "
+         "the normal form of every URL and host given; storing what was stored changes nothing), with boolean premises that place the "
+         "command line inside the modelled fragments; every URL / host of the run is compared with the hooks and with the written bytes. "
+         "Assumed (Section variables, exercised by the run): the url crate outside those fragments (IDNA / non-ASCII, `%` escapes and "
+         "xn-- labels in hosts, file:, the serialisation of URLs without `//`, relative references), the build-time git suffix of `created by`. Hashing (C01), the walker's "
          "file selection and order (C06) and HOST:PORT splitting (C17) are inputs of the model. Trusted: Coq kernel, "
          "tools/rs2v_schema.py, extraction (ExtrOcamlBasic), runner/driver.d/metainfo.ml, Python oracle.")
 
@@ -769,12 +772,66 @@ def run(ctx):
     try:
         results = lib.pmap(lambda c: evaluate(ctx, c, version, base), cases)
         judge(ctx, results, version, base)
+        x14_tie(ctx, results)
     finally:
         shutil.rmtree(base, ignore_errors=True)
     # X10: the concrete model of the url crate's normal form (Model/UrlNorm.v) against the `url_norm` hook
     from props import urlnorm
     urlnorm.run_urlnorm(ctx)
+    # X14: a fresh draw of the same URL generators through the concrete instances c_url_norm / c_norm / c_url_ok (the acceptance test
+    # also decides texts with a non-special scheme and no `//`, which u_norm leaves outside its fragment)
+    from props import urlconcrete
+    tie = urlconcrete.Tie(ctx, "c05-urlgen")
+    for t, cls in urlnorm.generate(ctx).items():
+        tie.url(t, "url generator/" + cls)
+    tie.run()
     return finish(ctx)
+
+
+def x14_tie(ctx, results):
+    """X14: the url crate's Section variables of Model/Metainfo.v at their concrete instances (Model/UrlConcrete.v: c_norm,
+    c_url_ok, c_host_canon), on every URL / node host / HOST:PORT text that occurs in this run: against the hooks (urlconcrete.Tie)
+    and against the bytes the real binary wrote (announce, update-url, the host of every node)."""
+    from props import urlconcrete
+    tie = urlconcrete.Tie(ctx, "c05")
+    for res in results:
+        c = res["case"]
+        w = "create, refused request (%s)" % c["expect_reject"] if c["expect_reject"] else "create command line"
+        tie.url(c["announce"], w + ", --announce"); tie.url(c["update_url"], w + ", --update-url")
+        for t in c["tiers"]:
+            for u in t.split(","):
+                tie.url(u, w + ", --announce-tier member")
+        for h, p in c["nodes"]:
+            tie.host(urlconcrete.unbracket(h.encode()), w + ", --node host")
+            tie.hostport(("%s:%d" % (h, p)).encode(), w + ", --node")
+        v = res.get("decoded")
+        nodes = lib.dget(v, "nodes") if v is not None else None
+        for nd in nodes if isinstance(nodes, list) else []:
+            tie.node(lib.bencode(nd), "node of a written metainfo")
+            if isinstance(nd, list) and nd and isinstance(nd[0], bytes):
+                tie.host(nd[0], "node host of a written metainfo")
+    for u in list(URLS) + sorted(URL_NORMALISING) + list(URL_NORMALISING.values()) + list(BAD_URLS):
+        tie.url(u, "c05 recorded URL tables")
+    for h in list(HOSTS) + sorted(HOST_NORMALISING) + list(HOST_NORMALISING.values()):
+        tie.host(urlconcrete.unbracket(h.encode()), "c05 recorded host tables")
+    tie.run()
+    for res in results:
+        c, v = res["case"], res.get("decoded")
+        if c["expect_reject"] or v is None or res.get("problems"):
+            continue
+        a = lib.dget(v, "announce")
+        if c["announce"] is not None and isinstance(a, bytes):
+            tie.observed_url(c["announce"], a, "`announce` of the metainfo the binary wrote")
+        uu = lib.dget(lib.dget(v, "info"), "update-url")
+        if c["update_url"] is not None and isinstance(uu, bytes):
+            tie.observed_url(c["update_url"], uu, "`info.update-url` of the metainfo the binary wrote")
+        nodes = lib.dget(v, "nodes")
+        if isinstance(nodes, list) and len(nodes) == len(c["nodes"]):
+            for (h, p), nd in zip(c["nodes"], nodes):
+                if isinstance(nd, list) and len(nd) == 2 and isinstance(nd[0], bytes):
+                    tie.observed_host(urlconcrete.unbracket(h.encode()), nd[0], "`nodes` of the metainfo the binary wrote")
+                    # stored again: the stored host is a fixed point of c_host_canon (c05_concrete_create_again_changes_nothing)
+                    tie.observed_host(nd[0], nd[0], "stored node host given again", what="would store")
 
 
 def observed_env(res, version):
@@ -898,10 +955,15 @@ def finish(ctx):
              "every ASCII byte in scheme / userinfo / host / port / path / query / fragment / leading / trailing position, tab, LF, CR "
              "and space at every offset, missing //, scheme only, 11 scheme swaps); IPv4 / IPv6 host spellings from C17's generators; "
              "seeded random trackers (C10's generator), compositions of odd components and 1-2 byte edits of them. A URL text is "
-             "distinct by (generator, outcome, first bytes, length class).",
+             "distinct by (generator, outcome, first bytes, length class). X14 (counts x14_*): every URL, node host, HOST:PORT text and "
+             "encoded node that occurs in the create cases above and in the recorded tables, through the concrete instances of "
+             "Model/UrlConcrete.v and through the hooks, plus the announce / update-url / node hosts of every written metainfo against "
+             "c_norm / c_host_canon; distinct by (kind, outcome, first bytes, length class).",
         trusted_base=["Coq 8.16.1 kernel (coqc)", "tools/rs2v_schema.py (GenSchema, GenCreate)",
                       "extraction with ExtrOcamlBasic + runner/driver.d/metainfo.ml (Metainfo.create_bytes, MetainfoOrder.walk_order)",
                       "runner/driver.d/urlnorm.ml (UrlNorm.u_norm, is_normal_url), hook url_norm + harness/src/handlers/urlnorm.rs",
+                      "runner/driver.d/urlconcrete.ml (UrlConcrete.c_url_norm, c_norm, c_url_ok, c_host_disp, c_host_canon, c_hp_norm, c_node_ok "
+                      "and their fragment predicates), hooks url_norm / host_parse / hostport_parse / hostport_from_bencode",
                       "Python oracle in tools/props/c05.py + lib.bdecode_strict, hashlib"],
     )
 
@@ -912,6 +974,9 @@ def replay(ctx, path):
     if "url_text_hex" in case:
         from props import urlnorm
         return urlnorm.replay_url(ctx, case)
+    if "x14_kind" in case:
+        from props import urlconcrete
+        return urlconcrete.replay(ctx, case)
     if "options" not in case:
         print(json.dumps(case, indent=1)[:4000]); return 0
     ctx.need_rust(); ctx.need_runner()
